@@ -24,6 +24,9 @@ impl SearchTimer {
     /// # Arguments
     /// * `time_limit` - Optional max duration for the search
     pub fn start(&mut self, time_limit: Option<Duration>) {
+        #[cfg(flounder_verif)]
+        verif::search_started();
+
         self.start_time = Some(Instant::now());
         self.time_limit = time_limit;
         self.nodes_searched = 0;
@@ -58,9 +61,9 @@ impl SearchTimer {
     /// `true` if time limit exceeded, `false` otherwise
     pub fn should_stop(&self) -> bool {
         #[cfg(flounder_verif)]
-        if let Some(limit) = verif::node_limit() {
-            // deterministic deadline expressed in nodes instead of wall-clock time
-            return self.nodes_searched >= limit;
+        if let Some(stop) = verif::poll(self.nodes_searched) {
+            // deterministic deadline expressed in nodes / in polls instead of wall-clock time
+            return stop;
         }
 
         if let (Some(start), Some(limit)) = (self.start_time, self.time_limit) {
@@ -186,6 +189,54 @@ pub mod verif {
 
     pub fn node_limit() -> Option<u64> {
         NODE_LIMIT.with(|l| l.get())
+    }
+
+    thread_local! {
+        /// deadline expressed as "the j-th call of should_stop() in this search is the first to answer true"
+        static POLL_LIMIT: Cell<Option<u64>> = Cell::new(None);
+        static POLLS: Cell<u64> = Cell::new(0);
+        static LAST_POLL_NODES: Cell<u64> = Cell::new(0);
+        /// largest number of nodes entered between two consecutive calls of should_stop()
+        static MAX_GAP: Cell<u64> = Cell::new(0);
+        /// node count at the first call that answered true (u64::MAX: none did)
+        static NODES_AT_STOP: Cell<u64> = Cell::new(u64::MAX);
+    }
+
+    pub fn set_poll_limit(limit: Option<u64>) {
+        POLL_LIMIT.with(|l| l.set(limit));
+    }
+
+    /// (polls so far, largest gap in nodes between consecutive polls, nodes at the first true poll)
+    pub fn poll_stats() -> (u64, u64, u64) {
+        (POLLS.with(|c| c.get()), MAX_GAP.with(|c| c.get()), NODES_AT_STOP.with(|c| c.get()))
+    }
+
+    /// Called by SearchTimer::start
+    pub fn search_started() {
+        POLLS.with(|c| c.set(0));
+        LAST_POLL_NODES.with(|c| c.set(0));
+        MAX_GAP.with(|c| c.set(0));
+        NODES_AT_STOP.with(|c| c.set(u64::MAX));
+    }
+
+    /// Called by SearchTimer::should_stop: book-keeping, and the answer when a budget is set
+    pub fn poll(nodes: u64) -> Option<bool> {
+        let n = POLLS.with(|c| {
+            c.set(c.get() + 1);
+            c.get()
+        });
+        let gap = nodes.saturating_sub(LAST_POLL_NODES.with(|c| c.get()));
+        LAST_POLL_NODES.with(|c| c.set(nodes));
+        MAX_GAP.with(|c| c.set(c.get().max(gap)));
+        let answer = match (node_limit(), POLL_LIMIT.with(|l| l.get())) {
+            (Some(k), _) => Some(nodes >= k),
+            (None, Some(j)) => Some(n >= j),
+            (None, None) => None,
+        };
+        if answer == Some(true) && NODES_AT_STOP.with(|c| c.get()) == u64::MAX {
+            NODES_AT_STOP.with(|c| c.set(nodes));
+        }
+        answer
     }
 }
 
